@@ -38,6 +38,25 @@ const preamble = `(set-option :produce-models true)
 (declare-fun pow2 (Int) Int)
 `
 
+// element index of a slice: idx(off, k) = off + k. In quantified queries it is an uninterpreted function with a
+// defining axiom, so that contract quantifiers can be triggered on it (z3 normalises arithmetic terms, which breaks
+// triggers that contain "+"); in quantifier-free queries it is simply defined.
+const idxAxiom = `(declare-fun idx (Int Int) Int)
+(assert (forall ((o!x Int) (k!x Int)) (! (= (idx o!x k!x) (+ o!x k!x)) :pattern ((idx o!x k!x)))))
+`
+const idxDef = `(define-fun idx ((o!x Int) (k!x Int)) Int (+ o!x k!x))
+`
+
+func ix(off, k string) string {
+	if off == "0" {
+		return k
+	}
+	if k == "0" {
+		return off
+	}
+	return "(idx " + off + " " + k + ")"
+}
+
 func (r *Registry) decl(line string) {
 	r.order = append(r.order, line)
 }
@@ -111,6 +130,9 @@ func typeHint(t types.Type) string {
 
 // sortOf maps a Go type to its SMT sort.
 func sortOf(t types.Type) string {
+	if s, ok := algSortOf(t); ok {
+		return s
+	}
 	if g, ok := t.(*ghostMapType); ok {
 		es := ""
 		if inner, ok := g.elem.(*ghostMapType); ok {
